@@ -96,10 +96,10 @@ var c20Sentinels = []sentinelEq{
 func runC20(c *ev.Ctx) {
 	c.Rule = "EncoderOptions value space: (a) each documented out-of-range/NaN/Inf value on top of random legal options must be rejected; (b) legal boundary values must " +
 		"give a valid file (walker+Decode); (c) random subsets of documented sentinels vs explicit defaults: byte-identical; (d) nil opts == DefaultOptions(); " +
-		"(e) lossy-only options must not change lossless bytes; (f) EmulateJpegSize changes nothing; (g) OptionsForPreset(PresetDefault,q)==defaults; (h) boundary image dimensions; " +
+		"(e) lossy-only options must not change lossless bytes; (f) EmulateJpegSize changes nothing, TargetPSNR changes nothing when TargetSize is set; (g) OptionsForPreset(PresetDefault,q)==defaults; (h) boundary image dimensions; " +
 		"(i) extreme ints in every int field: error or valid file, never a panic. distinct = (kind, mutated field/value or sentinel subset, codec, alpha)"
 	n := c.N(10000, 1500000)
-	kinds := []string{"illegal", "legal", "sentinel", "sentinel", "nil", "lossyonly", "jpeg", "preset", "dims", "extreme", "illegal", "sentinel"}
+	kinds := []string{"illegal", "legal", "sentinel", "sentinel", "nil", "lossyonly", "jpeg", "preset", "dims", "extreme", "illegal", "sentinel", "psnr"}
 	var cases []ev.Case
 	for i := 0; i < n; i++ {
 		cc := c20Case{Kind: kinds[i%len(kinds)], Sub: i / len(kinds)}
@@ -262,6 +262,17 @@ func c20One(c *ev.Ctx, cs ev.Case) {
 		b.EmulateJpegSize = !a.EmulateJpegSize
 		c.Distinct(fmt.Sprintf("jpeg|L=%v|a=%v|M%d", lossless, alpha, a.Method))
 		same("EmulateJpegSize toggled", a, &b, map[string]string{"kind": "jpeg"})
+	case "psnr":
+		// "TargetPSNR ... When set (and TargetSize is 0)": with a TargetSize the PSNR target is documented to have no effect
+		mm := img.Gen(r, pickS(r, "photo", "noise", "tiles", "gradient", "bands"), pickS(r, "opaque", "opaque", "gradient"), 24+r.Intn(80), 24+r.Intn(80))
+		a := legalOpts(r, false)
+		a.TargetSize = pickI(r, 100, 150, 400, 1000, 1500, 3000, 20000)
+		a.TargetPSNR = pickF(r, 20, 30, 38, 42, 48, 60)
+		b := *a
+		b.TargetPSNR = 0
+		c.Distinct(fmt.Sprintf("psnr|ts%d|psnr%g|M%d|pass%d", a.TargetSize, a.TargetPSNR, a.Method, a.Pass))
+		m = mm
+		same("TargetPSNR with TargetSize set", a, &b, map[string]string{"kind": "psnr"})
 	case "preset":
 		q := pickF(r, 0, 30, 75, 100)
 		a := webp.OptionsForPreset(webp.PresetDefault, q)
